@@ -24,7 +24,7 @@ def gen_case(rng, i):
     names = ["p%d" % k for k in range(npart)]
     asts = {}
     for k in range(npart - 1, -1, -1):
-        pg = AG(rng.fork("p%d" % k), data, names[k + 1:], opt={"pblock": rng.chance(0.5), "missing": 0.1, "sub": True})
+        pg = AG(rng.fork("p%d" % k), data, names[k + 1:], opt={"pblock": rng.chance(0.5), "pblock_args": True, "missing": 0.1, "sub": True})
         # a partial body: written against an unknown context; paths are evaluated by the reference at run time
         body = pg.nodes([ref.Scope(data, "partial")], 2)
         if rng.chance(0.35):
@@ -218,6 +218,13 @@ def generate(rng, n, tier="quick"):
     directed("array-context-with-hash", [("pe", PE), ("main", "{{> pe xs k=1}}|{{> pe [7,8] z=0}}")], {"xs": ["a", ["b"], None]},
              ("must", "0=a;1=[b];2=;k=1;|0=7;1=8;z=0;"))
     directed("dynamic", [("p", "P[{{x}}]"), ("main", "{{> (lookup this \"n\") x=1}}")], {"n": "p"}, ("must", "P[1]"))
+    # a use of the caller's block designates its context like any partial call: context argument, hash, both, a literal
+    directed("pblock-ctx", [("lay", "[{{> @partial-block inner}}]"), ("main", "{{#> lay}}{{name}}{{/lay}}")], {"name": "outer", "inner": {"name": "in"}}, ("must", "[in]"))
+    directed("pblock-ctx-hash", [("lay", "[{{> @partial-block inner k=1}}|{{> @partial-block k=2}}|{{> @partial-block this}}]"), ("main", "{{#> lay}}{{name}}{{k}}{{/lay}}")],
+             {"name": "outer", "inner": {"name": "in"}}, ("must", "[in1|outer2|outer]"))
+    directed("pblock-ctx-literal", [("lay", "{{> @partial-block [7,8]}}|{{> @partial-block \"s\" z=0}}"), ("main", "{{#> lay}}{{this.[0]}};{{/lay}}")], {}, ("must", "7;|s;"))
+    directed("pblock-ctx-in-each", [("lay", "{{#each xs}}{{> @partial-block this}}{{/each}}|{{> @partial-block xs.[1]}}"), ("main", "{{#> lay}}<{{n}}>{{/lay}}")],
+             {"n": "root", "xs": [{"n": 1}, {"n": 2}]}, ("must", "<1><2>|<2>"))
     directed("twice", [("p", "[{{> @partial-block}}{{> @partial-block}}]"), ("main", "{{#> p}}B{{/p}}")], {}, ("must", "[BB]"))
     directed("thrice-nested", [("p", "<{{> @partial-block}}{{> @partial-block}}{{> @partial-block}}>"), ("main", "{{#> p}}1{{#> p}}2{{/p}}{{/p}}")], {}, ("must", "<1<222>1<222>1<222>>"))
     directed("unbound-in-block", [("p", "P[{{> @partial-block}}]"), ("q", "Q[{{> @partial-block}}]"), ("main", "{{#> p}}B{{> q}}{{/p}}")], {}, ("musterr", ["PartialNotFound"]))
